@@ -26,7 +26,11 @@ MANIFEST = {
             'through 24 forms (incl. a second insertion after a clean / tainted one) (entity, html_quote in three syntaxes, '
             'expression, full path with size/null/missing/etc, '
             'fmt=html-quote, plain) on the real code; each result must equal '
-            'html.escape(value, quote=True) (plain forms: the value).',
+            'html.escape(value, quote=True) (plain forms: the value).  '
+            'html_quote with another option is decided relationally: with '
+            'fmt=F the result equals escape(render of fmt=F alone), with a '
+            'modifier M it equals M applied to the escaped text (8 formats, '
+            '9 modifiers, three spellings each).',
     'note': 'Trusted: html.escape of the standard library as the definition '
             'of "standard HTML escaping (with quotes)". The list of forms is '
             'the bound on "every insertion form".',
